@@ -90,8 +90,9 @@ def lookAll (m : M) : List N → Option (List R)
       | some rs => some (r :: rs)
 
 /-- One iteration of the `while self.stack` loop of `_process_stack`.
-    The callback `f k n args` receives the number `k` of callbacks invoked before it (used only to inject faults). -/
-def step (g : Graph N) (direct : N → Bool) (f : Nat → N → List R → Except E R)
+    The callback `f tr n args` receives the trace `tr` of the callbacks invoked before it (used only to inject
+    faults at the k-th invocation, `k = tr.length + 1`). -/
+def step (g : Graph N) (direct : N → Bool) (f : List N → N → List R → Except E R)
     (s : WState M N) : Res E M N :=
   match s.stack with
   | [] => .run s
@@ -102,7 +103,7 @@ def step (g : Graph N) (direct : N → Bool) (f : Nat → N → List R → Excep
       match lookAll s.memo (g.children n) with
       | none => .fail .key { s with stack := rest, iters := s.iters + 1 }
       | some args =>
-        match f s.trace.length n args with
+        match f s.trace n args with
         | .ok r => .run { s with stack := rest, memo := MemoLike.insert s.memo n r,
                                  trace := n :: s.trace, iters := s.iters + 1 }
         | .error e => .fail (.cb e) { s with stack := rest, trace := n :: s.trace, iters := s.iters + 1 }
@@ -112,7 +113,7 @@ def step (g : Graph N) (direct : N → Bool) (f : Nat → N → List R → Excep
       match look s.memo n with
       | some _ => .run { s with stack := rest, iters := s.iters + 1 }
       | none =>
-        match f s.trace.length n [] with
+        match f s.trace n [] with
         | .ok r => .run { s with stack := rest, memo := MemoLike.insert s.memo n r,
                                  trace := n :: s.trace, iters := s.iters + 1 }
         | .error e => .fail (.cb e) { s with stack := rest, trace := n :: s.trace, iters := s.iters + 1 }
@@ -122,13 +123,16 @@ def step (g : Graph N) (direct : N → Bool) (f : Nat → N → List R → Excep
                     pushes := s.pushes + 1 + todo.length, iters := s.iters + 1 }
 
 /-- `_process_stack`: the loop, with an explicit iteration budget (the proofs show `2·edges + 2` suffices). -/
-def iter (g : Graph N) (direct : N → Bool) (f : Nat → N → List R → Except E R) :
+def iter (g : Graph N) (direct : N → Bool) (f : List N → N → List R → Except E R) :
     Nat → WState M N → Res E M N
   | 0, s => .run s
   | k + 1, s =>
-    match step g direct f s with
-    | .run s' => iter g direct f k s'
-    | .fail e s' => .fail e s'
+    match s.stack with
+    | [] => .run s                                         -- `while self.stack:` exits
+    | _ :: _ =>
+      match step g direct f s with
+      | .run s' => iter g direct f k s'
+      | .fail e s' => .fail e s'
 
 /-- Outcome of `walk`. -/
 inductive WOut (E R : Type) where
@@ -145,7 +149,7 @@ def cleanup (inval : Bool) (pending : Nat) (s : WState M N) : WState M N :=
 /-- `DagWalker.walk(formula)`.
     * `inval` = `invalidate_memoization`;
     * `shortcut` = whether `formula in self.memoization` can hit at all (it cannot when `_get_key` returns a tuple). -/
-def walk (g : Graph N) (direct : N → Bool) (f : Nat → N → List R → Except E R)
+def walk (g : Graph N) (direct : N → Bool) (f : List N → N → List R → Except E R)
     (inval shortcut : Bool) (fuel : Nat) (n : N) (s : WState M N) : WOut E R × WState M N :=
   match (if shortcut then look s.memo n else none) with
   | some r => (.ok r, s)
@@ -226,7 +230,7 @@ section
 variable {M N R E : Type} [DecidableEq N] [MemoLike M N R]
 
 /-- consecutive `walk` calls on the same walker object -/
-def walks (g : Graph N) (direct : N → Bool) (f : Nat → N → List R → Except E R)
+def walks (g : Graph N) (direct : N → Bool) (f : List N → N → List R → Except E R)
     (inval shortcut : Bool) (fuel : Nat) : List N → WState M N → List (WOut E R) × WState M N
   | [], s => ([], s)
   | q :: qs, s =>
@@ -256,7 +260,7 @@ inductive CreateErr (E : Type) where
   | fuel
   deriving DecidableEq, Repr
 
-def createNode (g : Graph N) (tc : Nat → N → List (Option T) → Except E (Option T)) (fuel : Nat)
+def createNode (g : Graph N) (tc : List N → N → List (Option T) → Except E (Option T)) (fuel : Nat)
     (c : N) (s : Mgr M N) : Except (CreateErr E) N × Mgr M N :=
   let table' := if c ∈ s.table then s.table else c :: s.table          -- inserted *before* the type check
   let r := walk g (fun _ => false) tc false true fuel c s.stc
